@@ -1,21 +1,177 @@
 """C09 — best adapter, rounds, linked adapters."""
 import z3
 from pyvc import api, heap
-from pyvc.api import contract, Int, Bool, Str, OptT, ObjT, TupT, SeqT
+from pyvc.api import contract, Int, Bool, Str, OptT, ObjT, TupT, SeqT, schema
 from pyvc.values import *  # noqa
-from .shapes import MatchT, SingleMatchT, InfoT, AdapterT, match_spec, match_spec2, record_spec
+from pyvc.engine import str_slice
+from .shapes import MatchT, SingleMatchT, InfoT, AdapterT, match_spec, match_spec2, record_spec, tags
 
-MultipleT = ObjT("MultipleAdapters", has_linked=api.Bool)   # has_linked: ghost, "some adapter is a LinkedAdapter"
+TRUSTED = [
+    "each adapter's match_to is a deterministic function of (adapter, sequence) — modelled by the uninterpreted function MT",
+    "the two parts of a LinkedAdapter are a 5' and a 3' single adapter (their matches are RemoveBeforeMatch resp. RemoveAfterMatch); "
+    "established by parser._make_linked_adapter",
+]
+
+schema("Matchable", name=Str, __cls__=Int)
+MatchableT = ObjT("Matchable")
+MultipleT = ObjT("MultipleAdapters", _adapters=SeqT(MatchableT))
+
+MT_ID = z3.Function("MT.id", I, AII, I, I)         # id of the match object adapter `id` reports on string (arr, n)
+MT_NONE = z3.Function("MT.none", I, AII, I, B)     # ... or None
+ONLY_RB = z3.Function("only_front_matches", I, B)
+ONLY_RA = z3.Function("only_back_matches", I, B)
 
 
-@contract("adapters.py", "MultipleAdapters.match_to", props=[], name="MultipleAdapters.match_to@abstract")
-def multiple_match_to_abstract(c):
-    """What callers (C03/C16/C17/C20) need from the best-of search; the full contract is below (C09)."""
+def mt_spec(cx):
+    match_spec2(cx)
+    if "mt_none" in cx.spec:
+        return
+    from pyvc import verify
+    w = verify.world()
+    RB, RA, LM = tags(w)
+    LA = w.cls_tag("LinkedAdapter")
+
+    def mt_none(adapter, s):
+        s = as_str(s)
+        return MT_NONE(adapter.fields["__id__"], s.arr, s.n)
+
+    def mt(adapter, s):
+        s = as_str(s)
+        return heap.read(MatchT, "Match", "", MT_ID(adapter.fields["__id__"], s.arr, s.n))
+
+    def heap_bound(m):
+        """The object's fields are the heap's fields for its id (objects are immutable)."""
+        out = []
+        heap.facts(MatchT, "Match", "", m.fields["__id__"], m, out)
+        return z3.And(*out)
+
+    def score_of(m):
+        t = m.fields["__cls__"]
+        f, b = m.fields["front_match"], m.fields["back_match"]
+        return z3.If(t == LM, z3.If(z3.Not(f.none), f.val.fields["score"], 0) + z3.If(z3.Not(b.none), b.val.fields["score"], 0),
+                     m.fields["score"])
+
+    def errors_of(m):
+        t = m.fields["__cls__"]
+        f, b = m.fields["front_match"], m.fields["back_match"]
+        return z3.If(t == LM, z3.If(z3.Not(f.none), f.val.fields["errors"], 0) + z3.If(z3.Not(b.none), b.val.fields["errors"], 0),
+                     m.fields["errors"])
+
+    def better(a, b):
+        """a is strictly preferred to b: higher score, then fewer errors."""
+        return z3.Or(score_of(a) > score_of(b), z3.And(score_of(a) == score_of(b), errors_of(a) < errors_of(b)))
+
+    def not_worse(a, b):
+        return z3.Or(score_of(a) > score_of(b), z3.And(score_of(a) == score_of(b), errors_of(a) <= errors_of(b)))
+
+    def no_linked(multi):
+        seq = multi.fields["_adapters"]
+        t = z3.Int("t!nl")
+        a = heap.named_array(cx, seq.arr)
+        return z3.ForAll([t], z3.Implies(z3.And(0 <= t, t < seq.n), heap.seq_elem(seq, a[t]).fields["__cls__"] != LA), patterns=[a[t]])
+
+    cx.spec.update(no_linked=no_linked, mt_none=mt_none, mt=mt, heap_bound=heap_bound, score_of=score_of, errors_of=errors_of, better=better,
+                   not_worse=not_worse, LA=lambda: z3.IntVal(LA),
+                   only_rb=lambda a: ONLY_RB(a.fields["__id__"]), only_ra=lambda a: ONLY_RA(a.fields["__id__"]))
+
+
+@contract("adapters.py", "Matchable.match_to", props=[], name="Matchable.match_to")
+def matchable_match_to(c):
+    """Abstract contract of every match_to (assumed here; each concrete class is checked against it in C01/C08)."""
+    c.types(self=MatchableT, sequence=Str)
+    c.returns(OptT(MatchT))
+    c.spec(mt_spec)
+    c.covers_subclasses = True
+    c.ensures(
+        deterministic="is_none(result) == mt_none(self, sequence) and implies(not is_none(result), "
+                      "val(result).__id__ == mt(self, sequence).__id__ and heap_bound(val(result)))",
+        wellformed_on_this_string="implies(not is_none(result), wf(val(result)) and mlen(val(result)) == len(sequence))",
+        linked_only_from_linked="implies(not is_none(result) and self.__cls__ != LA(), val(result).__cls__ != LM())",
+        front_types="implies(not is_none(result) and only_rb(self), val(result).__cls__ == RB())",
+        back_types="implies(not is_none(result) and only_ra(self), val(result).__cls__ == RA())",
+    )
+
+
+@contract("adapters.py", "MultipleAdapters.match_to", props=["C09"])
+def multiple_match_to(c):
     c.types(self=MultipleT, sequence=Str)
     c.returns(OptT(MatchT))
-    c.spec(match_spec)
-    c.ensures(found_match_is_wellformed_on_this_string="implies(not is_none(result), wf(val(result)) and mlen(val(result)) == len(sequence))",
-              linked_matches_only_from_linked_adapters="implies(not is_none(result) and not self.has_linked, val(result).__cls__ != LM())")
+    c.spec(mt_spec)
+    c.ghost_results = ["w"]
+    c.local_types["best_match"] = OptT(MatchT)
+    c.ghost("w = -1", at_start=True)
+    c.ghost("w = __k1", before="best_match = match")
+    A = "self._adapters"
+    M = lambda t: f"mt(elem({A}, {t}), sequence)"
+    NONE = lambda t: f"mt_none(elem({A}, {t}), sequence)"
+    INV = [
+        f"0 <= __k1 <= len({A})",
+        f"is_none(best_match) == forall(t, 0, __k1, {NONE('t')})",
+        f"implies(not is_none(best_match), 0 <= w < __k1 and not {NONE('w')} and val(best_match).__id__ == {M('w')}.__id__ and heap_bound(val(best_match)))",
+        f"implies(not is_none(best_match), forall(t, 0, __k1, implies(not {NONE('t')}, not_worse({M('w')}, {M('t')}))))",
+        f"implies(not is_none(best_match), forall(t, 0, w, implies(not {NONE('t')}, better({M('w')}, {M('t')}))))",
+        f"implies(not is_none(best_match), wf(val(best_match)) and mlen(val(best_match)) == len(sequence))",
+        f"implies(not is_none(best_match) and no_linked(self), val(best_match).__cls__ != LM())",
+    ]
+    c.loop(1, head="for adapter in self._adapters", inv=INV)
+    c.ensures(
+        none_iff_no_adapter_matches=f"is_none(result) == forall(t, 0, len({A}), {NONE('t')})",
+        result_is_the_match_of_adapter_w=f"implies(not is_none(result), 0 <= w < len({A}) and not {NONE('w')} and val(result).__id__ == {M('w')}.__id__)",
+        highest_score_then_fewest_errors=f"implies(not is_none(result), forall(t, 0, len({A}), implies(not {NONE('t')}, not_worse({M('w')}, {M('t')}))))",
+        first_adapter_wins_ties=f"implies(not is_none(result), forall(t, 0, w, implies(not {NONE('t')}, better({M('w')}, {M('t')}))))",
+        found_match_is_wellformed_on_this_string="implies(not is_none(result), wf(val(result)) and mlen(val(result)) == len(sequence))",
+        linked_matches_only_from_linked_adapters="implies(not is_none(result) and no_linked(self), val(result).__cls__ != LM())",
+    )
+    c.mutant("match.errors < best_match.errors", "match.errors <= best_match.errors")
+    c.mutant("match.score > best_match.score", "match.score >= best_match.score")
+    c.mutant("match.score == best_match.score and", "")
+    c.mutant("if match is None:\n            continue", "if match is None:\n            break")
 
 
-api.BY_NAME["MultipleAdapters.match_to"] = multiple_match_to_abstract
+LinkedAdapterT = ObjT("LinkedAdapter", front_adapter=MatchableT, back_adapter=MatchableT, front_required=Bool, back_required=Bool,
+                      name=Str, __cls__=Int)
+
+
+@contract("adapters.py", "LinkedAdapter.match_to", props=["C09"])
+def linked_match_to(c):
+    c.types(self=LinkedAdapterT, sequence=Str)
+    c.returns(OptT(ObjT("LinkedMatch")))
+    c.spec(mt_spec)
+    c.requires(front_is_a_5p_adapter="only_rb(self.front_adapter)", back_is_a_3p_adapter="only_ra(self.back_adapter)")
+    F = "mt(self.front_adapter, old(sequence))"
+    FN = "mt_none(self.front_adapter, old(sequence))"
+    REST = f"(old(sequence) if {FN} else old(sequence)[{F}.rstop:])"
+    BN = f"mt_none(self.back_adapter, {REST})"
+    B_ = f"mt(self.back_adapter, {REST})"
+    c.ensures(
+        none_iff_a_required_part_is_missing=f"is_none(result) == ((self.front_required and {FN}) or ({BN} and (self.back_required or {FN})))",
+        front_part_is_the_front_adapters_match=f"implies(not is_none(result), is_none(val(result).front_match) == {FN} and "
+                                               f"implies(not {FN}, val(val(result).front_match).__id__ == {F}.__id__))",
+        back_part_searched_only_in_what_remains_after_the_front_part=f"implies(not is_none(result), is_none(val(result).back_match) == {BN} and "
+                                                                     f"implies(not {BN}, val(val(result).back_match).__id__ == {B_}.__id__))",
+    )
+    c.mutant("sequence = sequence[front_match.trim_slice()]", "pass")
+    c.mutant("self.back_required or front_match is None", "self.back_required")
+    c.mutant("if self.front_required and front_match is None", "if front_match is None")
+
+
+@contract("adapters.py", "LinkedMatch.score", props=["C09"], name="LinkedMatch.score")
+def linked_score(c):
+    from .shapes import LinkedT
+    c.types(self=LinkedT)
+    c.returns(Int)
+    c.ensures(sum_of_parts="result == (val(self.front_match).score if not is_none(self.front_match) else 0) + "
+                           "(val(self.back_match).score if not is_none(self.back_match) else 0)")
+    c.inline.add("LinkedMatch.score")
+    c.mutant("s += self.back_match.score", "s = self.back_match.score")
+
+
+@contract("adapters.py", "LinkedMatch.errors", props=["C09"], name="LinkedMatch.errors")
+def linked_errors(c):
+    from .shapes import LinkedT
+    c.types(self=LinkedT)
+    c.returns(Int)
+    c.ensures(sum_of_parts="result == (val(self.front_match).errors if not is_none(self.front_match) else 0) + "
+                           "(val(self.back_match).errors if not is_none(self.back_match) else 0)")
+    c.inline.add("LinkedMatch.errors")
+    c.mutant("e += self.front_match.errors", "e += self.front_match.score")
